@@ -61,9 +61,15 @@ def install_env(ctx, eng, faults=True, fail_only=None):
         n, off = args[2], args[3]
         k = eng.fresh_int(st, "usize", "k")
         who = fid(eng, st, args[:2])
-        # contract proved at L1: Ok(k) with 1 <= k <= n (n >= 1), exactly [off, off+k) copied; or Err
-        outs = [Outcome(ok(k), [z3.Or(z3.And(n.t >= 1, k.t >= 1, k.t <= n.t), z3.And(n.t == 0, k.t == 0))],
-                        events=[Event("copy_file_offset", who + [n, off], k)])]
+        # contract proved at L1: Ok(k) with 1 <= k <= min(n, bytes left before EOF); Ok(0) only for n == 0 or at EOF; or Err
+        ln = st.ghost.get("src_len")
+        if ln is None:
+            cond = z3.Or(z3.And(n.t >= 1, k.t >= 1, k.t <= n.t), z3.And(n.t == 0, k.t == 0))
+        else:
+            avail = z3.If(ln.t > off.t, ln.t - off.t, 0)
+            lim = z3.If(avail < n.t, avail, n.t)
+            cond = z3.Or(z3.And(lim >= 1, k.t >= 1, k.t <= lim), z3.And(lim <= 0, k.t == 0))
+        outs = [Outcome(ok(k), [cond], events=[Event("copy_file_offset", who + [n, off], k)])]
         if env.may_fail("copy_file_offset"):
             outs.append(Outcome(err("libfs::Error"), events=[Event("copy_file_offset", who + [n, off], "err")]))
         return outs
